@@ -50,6 +50,9 @@ func TestC18(t *testing.T) {
 		img, err := canonicalImage(v, 1<<20, st.Size()+1<<20)
 		return img, st.Size(), err
 	}
+	// one serving filesystem value opening the same unchanged directory five times, in both modes alternately: every
+	// open equals the image a fresh generator builds (outside the declared variable fields)
+	isoChangingTree(r, "C18", base, &idx, true)
 	for n := 0; n <= maxNodes; n++ {
 		enumTrees(n, c09Sizes(), func(tr Tree) {
 			for _, ps3 := range []bool{false, true} {
